@@ -18,8 +18,8 @@ const LongDelay = time.Hour
 
 // Graph is a task graph with names
 type Graph struct {
-	Names []string
-	Deps  map[string][]string
+	Names  []string
+	Deps   map[string][]string
 	Cyclic bool
 }
 
@@ -176,12 +176,12 @@ func (p PipeSpec) SimTasks() []model.SimTask {
 
 // PipeOpts biases the pipeline generator
 type PipeOpts struct {
-	MaxTasks     int
-	CyclicProb   float64
-	DelayProb    float64
+	MaxTasks         int
+	CyclicProb       float64
+	DelayProb        float64
 	AllowFailureProb float64
-	ForceClass   *ConfigClass
-	EnvProb      float64
+	ForceClass       *ConfigClass
+	EnvProb          float64
 	// GraphFn, if set, supplies the task graph
 	GraphFn func(r *rand.Rand) Graph
 }
